@@ -1049,6 +1049,23 @@ impl BackupManager {
         let mut deleted = Vec::new();
         let min_age_seconds = policy.min_age_days * day;
 
+        // A retained backup can only be restored together with its whole parent chain: keep the
+        // ancestors of everything that stays (bucket winners and backups younger than min_age).
+        for backup in &backups {
+            if now.saturating_sub(backup.timestamp) < min_age_seconds {
+                to_keep.insert(backup.id);
+            }
+        }
+        let mut pending: Vec<Uuid> = to_keep.iter().copied().collect();
+        while let Some(id) = pending.pop() {
+            let parent = backups.iter().find(|b| b.id == id).and_then(|b| b.parent_id);
+            if let Some(parent_id) = parent {
+                if to_keep.insert(parent_id) {
+                    pending.push(parent_id);
+                }
+            }
+        }
+
         for backup in &backups {
             if !to_keep.contains(&backup.id) {
                 let age = now.saturating_sub(backup.timestamp);
